@@ -21,6 +21,7 @@ h = [None] * NH
 bx = [None] * NH
 hi = [None] * NH
 hd = [None] * NH
+ar = [None] * NH
 
 
 QUIET = [False]
@@ -212,6 +213,49 @@ def do_op(k, name, a, b, text):
             return out_
         lst = prepared(("can", a, b), mkn)
         res(k, simlib.charArrLen(lst, len(lst)))
+    elif name == "pt_sum":
+        res(k, simlib.ptSum(prepared(("pt", a), lambda: simlib.Pt(a, a + 0.5))))
+    elif name == "pt_tmp":
+        res(k, simlib.ptSum(simlib.Pt(a, a + 0.5)))  # an instance that lives for one call only
+    elif name == "pt_out":
+        q = simlib.ptOut(a)
+        res(k, q.x, int(q.y * 2))
+    elif name == "pt_scale":
+        # the same instance every time (fields reset through the setters): nothing is created here
+        q = prepared(("ptq", a), lambda: simlib.Pt(a, a + 0.5))
+        q.x = a
+        q.y = a + 0.5
+        r = simlib.ptScale(q, b)
+        del r
+        res(k, q.x, int(q.y * 2))
+        del q
+    elif name == "ar_new":
+        ar[a] = simlib.Arr(b, prepared(("arv", b), lambda: [7 * i for i in range(b)]), prepared(("arn", b), lambda: "nm%d" % b))
+        res(k)
+    elif name == "ar_tmp":
+        t = simlib.Arr(a, prepared(("arv", a), lambda: [7 * i for i in range(a)]), prepared(("arn", a), lambda: "nm%d" % a))
+        res(k, simlib.arrTotal(t))
+        del t
+    elif name == "ar_set_vals":
+        ar[a].vals = prepared(("ars", b), lambda: [3 + i for i in range(b)])
+        ar[a].n = b
+        res(k)
+    elif name == "ar_set_name":
+        ar[a].name = prepared(("t", text), lambda: text)
+        res(k)
+    elif name == "ar_total":
+        res(k, simlib.arrTotal(ar[a]))
+    elif name == "ar_get_vals":
+        v = ar[a].vals
+        res(k, "NONE" if v is None else len(v))
+        del v
+    elif name == "ar_get_name":
+        v = ar[a].name
+        res(k, "NONE" if v is None else v)
+        del v
+    elif name == "ar_drop":
+        ar[a] = None
+        res(k)
     elif name == "str_ref":
         res(k, simlib.strRef())
     elif name == "str_val":
